@@ -197,7 +197,14 @@ def make_sbix_table(
             glyphName=glyph_name,
             imageData=image_data,
             originOffsetX=metrics.x_offset,
-            originOffsetY=metrics.line_ascent - metrics.line_height,
+            # the bottom edge, with the bitmap centred on the em box vertically
+            originOffsetY=round(
+                (
+                    (config.ascender + config.descender) * strike.ppem / config.upem
+                    - image_data.size[1]
+                )
+                / 2
+            ),
         )
         strike.glyphs[glyph_name] = glyph
 
